@@ -8,6 +8,9 @@ Layouts (see /repo/tests/data/thermo):
   rows:    four header rows (MainRuns / scan / element / channel per column; two leading empty fields), then one
            row per sample: <name><d><Identifier><d>values...<d>; columns nested scan, element, channel
 Every line ends with the delimiter, as Qtegra writes it.
+A '#' is an ordinary character of a sample name, a label or a field (pewlib reads the files with comments=None since e68affa):
+SAMPLES and LABELS hold such names, `hash_field` writes fields of the X / Y channels (which no reader asks for) that are
+nothing but a '#' text.
 """
 from __future__ import annotations
 
@@ -15,8 +18,9 @@ import math
 
 CHANNELS = ["X", "Y", "Time", "Analog", "Counter"]
 LABELS = ["31P", "153Eu", "182W", "56Fe | 56Fe.16O", "A", "Ca44", "13C", "x y", "Pb208 (KED)", "b-1", "Zn66", "[40Ar16O]+",
-          "u" * 32, "238U", "7Li", "E.1", "0", "12"]
-SAMPLES = ["Sample 1", "1", "S-2", "line 003", "2", "std_10ppm", "Sample 10", "x", "3", "blank (2)"]
+          "u" * 32, "238U", "7Li", "E.1", "0", "12", "44Ca#", "#31P", "63Cu #2", "#"]
+SAMPLES = ["Sample 1", "1", "S-2", "line 003", "2", "std_10ppm", "Sample 10", "x", "3", "blank (2)", "Sample #1", "#3", "S#", "a # b #"]
+HASH_FIELDS = ["#", "#N/A", "n/a #2", "1.5 # checked", "#VALUE!"]
 
 
 def value_of(tok: str) -> float:
@@ -78,6 +82,21 @@ def number(rng) -> str:
     return repr(rng.random() * 10 ** rng.randint(0, 6))
 
 
+def sample_names(rng, n, p_named):
+    """n sample names: drawn from SAMPLES, or numbered ("Sample 3", one time in four "Sample #3")"""
+    if rng.random() < p_named and n <= len(SAMPLES):
+        return rng.sample(SAMPLES, n)
+    stem = "Sample #" if rng.random() < 0.25 else "Sample "
+    return [f"{stem}{i + 1}" for i in range(n)]
+
+
+def hash_field(rng, ch):
+    """a field of a channel no reader asks for (X, Y) that is no number at all and carries a '#'; None: write a number"""
+    if ch[0] in "XY" and rng.random() < 0.04:
+        return rng.choice(HASH_FIELDS)
+    return None
+
+
 def generate(rng, tier):
     n = rng.choice([1, 1, 2, 2, 3, 4, 6])
     m = rng.choice([2, 2, 3, 4, 5, 8, 11])
@@ -96,7 +115,7 @@ def generate(rng, tier):
     if not channels:
         channels = ["Counter"]
     elements = rng.sample(LABELS, k)
-    samples = rng.sample(SAMPLES, n) if rng.random() < 0.7 and n <= len(SAMPLES) else [f"Sample {i + 1}" for i in range(n)]
+    samples = sample_names(rng, n, 0.7)
     dt = rng.choice([1.0049, 0.2, 0.25, 0.50005, 0.1, 2.0])
     tokens = []
     for i in range(n):
@@ -110,7 +129,7 @@ def generate(rng, tier):
                         tok = f"{0.2 + 0.4 * e + s * dt + rng.choice([0, 1, -1, 2, 3]) * 1e-5:.5f}".rstrip("0")
                         tok = tok + "0" if tok.endswith(".") else tok
                     else:
-                        tok = number(rng)
+                        tok = hash_field(rng, ch) or number(rng)
                     per_ch.append(tok.replace(".", ",") if decimal == "," else tok)
                 per_el.append(per_ch)
             per_scan.append(per_el)
@@ -172,7 +191,7 @@ def generate_late(rng, tier, target=None, lead=None, combo=None, kind=None, coun
         while ((k - 1) * C + cr) * m + m - 1 < R:           # a record of the channel that is read lies past the run
             m += 1
     elements = rng.sample(LABELS, k)
-    samples = rng.sample(SAMPLES, n) if rng.random() < 0.5 and n <= len(SAMPLES) else [f"Sample {i + 1}" for i in range(n)]
+    samples = sample_names(rng, n, 0.5)
     dt, dti = rng.choice([1.0049, 0.2, 0.25, 0.50005, 0.1, 2.0]), rng.choice([1, 1, 2])
     sparse = rng.random() < 0.4                             # most later values integral as well
     tokens = []
@@ -227,9 +246,10 @@ def generate_other(rng):
 # A "text" case is a file given line by line (no terminators), derived from a small valid export by the edits below.
 # The property is silent about every one of them: pewlib is compared with the Lean model only, in one of two ways.
 #   strict : rows layout, edits from TEXT_EDITS_ROWS only.  These touch nothing but what `str.split` does with the four
-#            header rows and what `np.genfromtxt(usecols=...)` does with the sample rows (blank and comment lines are
-#            skipped, blanks at the line ends are stripped, a row counts as soon as it reaches the last selected column,
-#            no row at all gives an image without samples).  Every reader, the sniffer and load must equal the model,
+#            header rows and what `np.genfromtxt(usecols=..., comments=None)` does with the sample rows (blank lines are
+#            skipped, a line that starts with '#' is a row like any other — too short, the reader raises —, text after a
+#            '#' stays in its field, blanks at the line ends are stripped, a row counts as soon as it reaches the last
+#            selected column, no row at all gives an image without samples).  Every reader, the sniffer and load must equal the model,
 #            exceptions included.
 #   soft   : everything else (the columns layout, whose outcome hangs on how the reader compares the field counts of
 #            MainRuns lines, converts scan numbers and treats a single selected line; scan numbers and names that leave
